@@ -75,10 +75,12 @@ theorem skel_rpcError_shape :
 /-- `doCall`: the reflective call of a handler method inside a deferred recover that turns a panic into an error. -/
 theorem skel_doCall_shape :
     Generated.skel_doCall = [
+  "returned := false",
   "defer func{…}()",
-  "  if i := recover(); i != nil",
+  "  if i := recover(); i != nil || !returned",
   "    err = xerrors.Errorf(\"panic in rpc method '%s': %s\", methodName, i)",
   "out = f.Call(params)",
+  "returned = true",
   "return out, nil"] := rfl
 
 /-- `batchWriter.nextElem`: marks an element boundary. -/
@@ -119,7 +121,7 @@ theorem skel_handleFrame_shape :
   "  case chClose",
   "    c.handleChanClose(frame)",
   "  default",
-  "    c.handleCall(ctx, frame)"] := rfl
+  "    c.handleCall(ctx, frame, epoch)"] := rfl
 
 /-- `normalizeID`: string, float64 and nil pass, int64 becomes float64, every other dynamic type is an error. -/
 theorem skel_normalizeID_shape :
